@@ -153,7 +153,9 @@ def run_one(ch, env):
 
     sim.on_lock = on_lock
     sim.on_read = on_read
-    pio = PyramidIO(d, default_format=fmt)
+    scheme = ("L/Y/YX", "LXY")[ch.draw(2, p0=0.7, kind="scheme")]
+    res["config"]["scheme"] = scheme
+    pio = PyramidIO(d, scheme=scheme, default_format=fmt)
     import multiprocessing as mp
 
     def updater(pio, ops):
